@@ -1052,6 +1052,40 @@ class RunA:
             'log': self.log,
         }
 
+    def virtual_prefixes(self):
+        """Strict prefixes of valid frames that are too large to build: a
+        body frame of 2^31 bytes and more is a valid frame (any bytes are a
+        valid body), and so the first few bytes of one, after which the peer
+        closed, are a strict prefix of a valid frame."""
+        for vp in self.trace.get('virtual', ()):
+            size = vp['size']
+            have = bytes.fromhex(vp['have'])
+            if len(have) > size:      # (size + 1 bytes would complete it)
+                continue
+            buf = bytes([3]) + vp['ch'].to_bytes(2, 'big') + \
+                size.to_bytes(4, 'big') + have
+            self.count(self.fired, 'close_inside_huge_frame')
+            self.ev('virtual', vp['ch'], size, len(have))
+            if 'C20' in self.props:
+                self.probe_parts(buf, 'V')
+            status, val = self.call_unmarshal(buf, 'V')
+            if 'C07' in self.props and status != 'budget':
+                self.oracle('C07.prefix')
+                if size >= 2**31:
+                    self.probe('prefix_of_frame_ge_2GiB')
+                if status == 'ok':
+                    self.fail('C07', 'prefix', ['returned', 'body'],
+                              'the first %d bytes of a %d-byte body frame '
+                              'were decoded as a frame (consumed=%r)' % (
+                                  len(buf), size + 8, val[0]), buf)
+                elif status == 'exc':
+                    self.fail('C07', 'prefix',
+                              ['raised', type(val).__name__, 'body'],
+                              'the first %d bytes of a %d-byte body frame '
+                              'raised %s instead of UnmarshalingException'
+                              % (len(buf), size + 8, type(val).__name__),
+                              buf)
+
     # ------------------------------------------- capacity: fork-and-explore
     def execute_capacity(self):
         """Long histories of distinct frames on 2-3 connections, executed
@@ -1538,6 +1572,7 @@ class RunA:
                     lat = c.lat[c.deliveries % len(c.lat)]
                     heapq.heappush(heap, (now + max(1, lat), seq, ci))
                     seq += 1
+            self.virtual_prefixes()
         except Violation:
             pass
         finally:
